@@ -83,6 +83,20 @@ Section Ipa.
     | (u, ui) :: us' => let s' := svec us' in vscale ui s' ++ vscale u s'
     end.
 
+  (** [verify_scalars] as coded: s_0 = prod_j u_j^-1 (left to right); for i = 1 .. n-1:
+      lg = floor(log2 i), s_i = s_(i - 2^lg) * u_sq[k - 1 - lg].  Proved equal to [svec] in [BpExtras.v]. *)
+  Definition s_zero (us : list (F * F)) : F := fold_left (fun acc p => fmul acc (snd p)) us f1.
+  Fixpoint svec_iter_go (fuel i : nat) (usq : list F) (k : nat) (s : list F) : list F :=
+    match fuel with
+    | O => s
+    | S fuel' =>
+        let lg := Nat.log2 i in
+        let si := fmul (nth (i - Nat.pow 2 lg) s f0) (nth (k - 1 - lg) usq f0) in
+        svec_iter_go fuel' (S i) usq k (s ++ [si])
+    end.
+  Definition svec_iter (us : list (F * F)) : list F :=
+    svec_iter_go (Nat.pow 2 (length us) - 1) 1 (map (fun p => fmul (fst p) (fst p)) us) (length us) [s_zero us].
+
   Definition lr_sum (us : list (F * F)) (lr : list (G * G)) : G :=
     fold_right gadd g0
       (map (fun p => gadd (smul (fmul (fst (fst p)) (fst (fst p))) (fst (snd p)))
